@@ -118,7 +118,7 @@ class Check:
                 pass
         return "unknown", None, time.time() - t0, "none"
 
-    def prove(self, name, pc, goal, *, desc="", describe=None, replay=None, regions=None, sample=None, bounded=False):
+    def prove(self, name, pc, goal, *, desc="", describe=None, replay=None, regions=None, sample=None, bounded=False, timeout_ms=None):
         """One verification condition of obligation `name`: pc => goal.
         regions: {region_id: z3 predicate} known-finding regions of the input space; the VC is proved on the
         complement of the regions listed in known_findings.json, and each listed region is confirmed to reproduce.
@@ -135,7 +135,7 @@ class Check:
             if f is not None:
                 excl.append(z3.Not(pred))
                 active[rid] = (f, pred)
-        res, model, dt, be = self.solve(list(pc) + excl + [z3.Not(goal)])
+        res, model, dt, be = self.solve(list(pc) + excl + [z3.Not(goal)], timeout_ms)
         ob.solver_s += dt
         ob.backend[be] = ob.backend.get(be, 0) + 1
         if res == "unsat":
